@@ -139,7 +139,11 @@ def region_rule(chk, facts):
                     else:
                         ok, why = False, 'the remaining regions are asked about a different range than (%s, %s)' % (lo, hi)
                     continue
-                ats = atoms(t, True)
+                ats = []
+                for l, op, r in atoms(t, True):     # either operand order: `End >= end` reads `end <= End`
+                    if not isinstance(r, int) and not isinstance(l, int) and strip_casts(r).n in (lo, hi) and strip_casts(l).n not in (lo, hi):
+                        l, op, r = r, SWAP[op], l
+                    ats.append((l, op, r))
                 a_lo = [(l, op, r) for l, op, r in ats if not isinstance(l, int) and is_name(l, lo) and op in ('>=', '>')]
                 a_hi = [(l, op, r) for l, op, r in ats if not isinstance(l, int) and is_name(l, hi) and op in ('<=', '<')]
                 if a_lo and a_hi:
